@@ -6,6 +6,14 @@
 //     cut points 0 <= c <= len; equal neighbours, 0 and len give EMPTY segments: a call over zero time steps), in consecutive calls that carry the RETURNED state
 //     array forward as the initial states of the next call.
 //       MODE same : one model object, the very same state array object handed to every call
+//       MODE strided | offset : arrays as VIEWS, the natural way a driver that keeps all cells in one table and one long
+//                   record splits a run: the carried state array is a view of a larger state table -- every second row
+//                   (strided; 2 cells) or a row block not starting at row 0 (offset; 2 cells from row 2) -- handed to every
+//                   call; the inputs of a call are a TIME WINDOW (Slice) of the one long input record and its outputs a
+//                   time window of one long, zero-initialised output record (sim.InitialiseOutputs for the whole period).
+//                   Both cells get the same data.  The answer ends with  | PARENT <checks> <bad> [first problem]:
+//                   rows of the state table outside the view must keep their sentinel values, the second cell must
+//                   equal the first, bit for bit.
 //       MODE fresh: a new model object (ApplyParameters again) and a new state array holding the
 //                   returned values for every call
 //     -> <whole> | <split 1> | ... | <split m>      each  OK O nout len hex.. S n hex..  or PANIC
@@ -23,6 +31,11 @@
 //        r6  object A, ApplyParameters called again first
 //        trunc(t): fresh object, inputs truncated to their first t steps
 //        repl(t) : fresh object, inputs[:t] ++ ALT[t:]  (tail replaced)
+//        with a trailing  REINIT 0|1  on the command line, before KEPT:
+//        ... | i1 | i2 | i3 | INIT n hex.. n hex.. n hex..
+//        "re-initialise on the same object": object D: s1 = InitialiseStates(1), run from s1 (i1); s2 = InitialiseStates(1)
+//        again on D, run from s2 (i2); fresh object E: s3 = InitialiseStates(1), run (i3).  INIT lists s1 (as it was
+//        before its run), s2, s3.  Purity requires s1 = s2 = s3 and i1 = i2 = i3.  (REINIT 0: the three runs are SKIP.)
 //        ... | KEPT <checks> <bad> [first difference]
 //        every output array (from sim.InitialiseOutputs, as ow-sim and libopenwater obtain theirs) and state array of
 //        the runs above is KEPT ALIVE, with a bit-pattern snapshot taken right after its run; after every later run
@@ -230,6 +243,89 @@ func hsCopyRows(rows [][]float64) [][]float64 {
 	return r
 }
 
+// one split run with all arrays as views of larger ones (see MODE strided | offset)
+func hsSplitViews(name, mode string, c hsCase, bounds []int, pchecks *int, problem func(string), ci int) (all [][]float64, fin []float64, good bool) {
+	defer func() {
+		if r := recover(); r != nil {
+			all, fin, good = nil, nil, false
+		}
+	}()
+	const nc = 2
+	ns := len(c.ss)
+	nrows := 5
+	table := data.NewArray2DFloat64(nrows, ns)
+	sentinel := func(r, j int) float64 { return -7777.25 - float64(r*1000+j) }
+	for r := 0; r < nrows; r++ {
+		for j := 0; j < ns; j++ {
+			table.Set2(r, j, sentinel(r, j))
+		}
+	}
+	var rows []int
+	var states data.ND2Float64
+	if mode == "strided" {
+		rows = []int{1, 3}
+		states = table.Slice([]int{1, 0}, []int{nc, ns}, []int{2, 1}).(data.ND2Float64)
+	} else {
+		rows = []int{2, 3}
+		states = table.Slice([]int{2, 0}, []int{nc, ns}, nil).(data.ND2Float64)
+	}
+	for _, r := range rows {
+		for j, v := range c.ss {
+			table.Set2(r, j, v)
+		}
+	}
+	model := hsModel(name, c.ps)
+	k := len(c.ins)
+	record := data.NewArray3DFloat64(1, k, c.length)
+	for i, row := range c.ins {
+		for j, v := range row {
+			record.Set3(0, i, j, v)
+		}
+	}
+	outRecord := sim.InitialiseOutputs(model, c.length, nc)
+	nout := outRecord.Len(1)
+	for s := 0; s+1 < len(bounds); s++ {
+		from, n := bounds[s], bounds[s+1]-bounds[s]
+		inputs := record.Slice([]int{0, 0, from}, []int{1, k, n}, nil).(data.ND3Float64)
+		outputs := outRecord.Slice([]int{0, 0, from}, []int{nc, nout, n}, nil).(data.ND3Float64)
+		model.Run(inputs, states, outputs)
+	}
+	all = make([][]float64, nout)
+	for i := range all {
+		all[i] = make([]float64, c.length)
+		for j := 0; j < c.length; j++ {
+			all[i][j] = outRecord.Get3(0, i, j)
+			*pchecks++
+			if math.Float64bits(outRecord.Get3(1, i, j)) != math.Float64bits(all[i][j]) {
+				problem(fmt.Sprintf("cutset-%d-output-%d-step-%d-differs-between-the-two-cells", ci, i, j))
+			}
+		}
+	}
+	fin = make([]float64, ns)
+	for j := 0; j < ns; j++ {
+		fin[j] = table.Get2(rows[0], j)
+		*pchecks++
+		if math.Float64bits(table.Get2(rows[1], j)) != math.Float64bits(fin[j]) {
+			problem(fmt.Sprintf("cutset-%d-final-state-%d-differs-between-the-two-cells", ci, j))
+		}
+		if math.Float64bits(states.Get2(0, j)) != math.Float64bits(fin[j]) {
+			problem(fmt.Sprintf("cutset-%d-view-and-table-disagree-on-state-%d", ci, j))
+		}
+	}
+	for r := 0; r < nrows; r++ {
+		if r == rows[0] || r == rows[1] {
+			continue
+		}
+		for j := 0; j < ns; j++ {
+			*pchecks++
+			if math.Float64bits(table.Get2(r, j)) != math.Float64bits(sentinel(r, j)) {
+				problem(fmt.Sprintf("cutset-%d-state-table-row-%d-outside-the-view-overwritten-at-%d", ci, r, j))
+			}
+		}
+	}
+	return all, fin, true
+}
+
 func init() {
 	commands["SPLIT"] = func(t *toks, w *bufio.Writer) {
 		name := t.next()
@@ -255,9 +351,22 @@ func init() {
 		st := hsStates(c.ss)
 		outs, ok := hsRun(model, st, c.ins, 0, c.length)
 		hsPrint(w, outs, hsReadStates(st, len(c.ss)), ok)
-		for _, cuts := range cutsets {
+		view := mode == "strided" || mode == "offset"
+		pchecks, pbad, pfirst := 0, 0, ""
+		problem := func(msg string) {
+			pbad++
+			if pfirst == "" {
+				pfirst = msg
+			}
+		}
+		for ci, cuts := range cutsets {
 			w.WriteString(" | ")
 			bounds := append(append([]int{0}, cuts...), c.length)
+			if view {
+				all, fin, good := hsSplitViews(name, mode, c, bounds, &pchecks, problem, ci)
+				hsPrint(w, all, fin, good)
+				continue
+			}
 			var m2 sim.TimeSteppingModel
 			if mode == "same" {
 				m2 = hsModel(name, c.ps)
@@ -284,6 +393,9 @@ func init() {
 				}
 			}
 			hsPrint(w, all, hsReadStates(st, len(c.ss)), good)
+		}
+		if view {
+			fmt.Fprintf(w, " | PARENT %d %d %s", pchecks, pbad, pfirst)
 		}
 		w.WriteByte('\n')
 	}
@@ -377,6 +489,56 @@ func init() {
 				mixed[i] = append(append([]float64(nil), c.ins[i][:tt]...), alt[i][tt:]...)
 			}
 			run(hsModel(name, c.ps), mixed, c.length)
+		}
+		// re-initialise on the same object: ApplyParameters -> InitialiseStates -> Run -> InitialiseStates -> Run on ONE
+		// object; the second freshly initialised state array must equal the first (as it was BEFORE its run) and that
+		// of a fresh object, and give the same results.  REINIT 0: the runs are left out (Storage started from its
+		// zero states can hit its agreed process crash); the state arrays are compared all the same.
+		reinit := -1
+		if t.i < len(t.t) && t.t[t.i] == "REINIT" {
+			t.next()
+			reinit = t.int()
+		}
+		if reinit >= 0 {
+			readAll := func(st data.ND2Float64) []float64 {
+				r := make([]float64, st.Len(1))
+				for i := range r {
+					r[i] = st.Get2(0, i)
+				}
+				return r
+			}
+			d := hsModel(name, c.ps)
+			s1 := d.InitialiseStates(1)
+			init1 := readAll(s1)
+			runInit := func(label string, model sim.TimeSteppingModel, st data.ND2Float64) {
+				w.WriteString(" | ")
+				if reinit == 0 {
+					w.WriteString("SKIP")
+					return
+				}
+				outs, ok := keepRun(label, model, st, hsCopyRows(c.ins), c.length)
+				hsPrint(w, outs, readAll(st), ok)
+			}
+			runInit("reinit-first", d, s1)
+			if reinit == 0 {
+				// some run on the object between the two initialisations (from the given states; not printed)
+				keepRun("reinit-between", d, hsStates(c.ss), hsCopyRows(c.ins), c.length)
+			}
+			s2 := d.InitialiseStates(1)
+			init2 := readAll(s2)
+			runInit("reinit-second", d, s2)
+			e := hsModel(name, c.ps)
+			s3 := e.InitialiseStates(1)
+			init3 := readAll(s3)
+			runInit("reinit-fresh-object", e, s3)
+			w.WriteString(" | INIT")
+			for _, in := range [][]float64{init1, init2, init3} {
+				fmt.Fprintf(w, " %d", len(in))
+				for _, v := range in {
+					w.WriteByte(' ')
+					w.WriteString(hex(v))
+				}
+			}
 		}
 		fmt.Fprintf(w, " | KEPT %d %d %s", checks, bad, firstBad)
 		w.WriteByte('\n')
